@@ -335,7 +335,7 @@ func main() {
 	// dead) as long as some return site of the function is reachable
 	reach := map[string]bool{}
 	for i, o := range obls {
-		if o.Cover && results[i].Status != "unsat" {
+		if o.Cover && o.Kind != "cover-loop" && results[i].Status != "unsat" {
 			reach[o.Func] = true
 		}
 	}
@@ -402,10 +402,24 @@ func main() {
 			canaryAlive[r.Func+"/"+strings.SplitN(r.Name, "#", 2)[0]] = true
 		}
 	}
+	loopReach, loopWarned := map[string]bool{}, map[string]bool{}
+	for _, r := range results {
+		if r.Kind == "cover-loop" && r.Status != "unsat" {
+			loopReach[r.Func+"/"+r.Name] = true
+		}
+	}
 	for _, r := range results {
 		expectSat := r.MustFail || r.Cover
 		good := (r.Status == "unsat" && !expectSat) || (expectSat && r.Status != "unsat")
 		if r.MustFail && canaryAlive[r.Func+"/"+strings.SplitN(r.Name, "#", 2)[0]] {
+			good = true
+		}
+		if r.Kind == "cover-loop" {
+			// a loop is reported when ALL of its back edges are proved unreachable
+			if r.Status == "unsat" && !loopReach[r.Func+"/"+r.Name] && !loopWarned[r.Func+"/"+r.Name] {
+				loopWarned[r.Func+"/"+r.Name] = true
+				fmt.Printf("WARN vacuous  %s / %s: no back edge of this loop is reachable under its invariants (its inv-keep obligations prove nothing)\n", r.Func, r.Name)
+			}
 			good = true
 		}
 		if good {
